@@ -47,6 +47,16 @@ Definition keys_tight {K P} (keqb : K -> K -> bool) (base : K -> bool)
       | None => false
       end) (a_matches st)) (au_states A).
 Definition s_keys_tight := @keys_tight N cpredicate N.eqb (fun k => N.eqb k 0).
+Definition m_keys_tight := @keys_tight mkey cpredicate mkey_eqb (fun k => mkey_eqb k (0, 0)%Z).
+
+(** every key of a matrix automaton is non-negative (as produced by every MatrixPattern) *)
+Definition m_nnb (k : mkey) : bool := (0 <=? fst k)%Z && (0 <=? snd k)%Z.
+Definition m_keys_nn (A : automaton mkey cpredicate) : bool :=
+  forallb (fun st =>
+    forallb m_nnb (a_scope st)
+    && forallb (fun pk => forallb m_nnb (snd pk)) (a_matches st)
+    && forallb (fun e => match e_cons e with Some c => forallb m_nnb (cargs c) | None => true end) (a_out st))
+    (au_states A).
 
 (** ** valuations induced by a host and an anchor *)
 Definition sval (h : shost) (a : N) (c : sconstraint) : bool :=
